@@ -48,7 +48,9 @@ RULE = ('Hypothesis: FileSpec (1-5 dims of length 1-5, 1-5 numeric variables '
         'masked may instead hold the declared fill value (Pseudo2NetCDF '
         'convention) and convolve_dim on masked data may follow either '
         'numpy.ma.convolve semantics (mask propagated / masked elements '
-        'excluded).  Non-trivial: '
+        'excluded).  Thorough tier adds ioapi_base.applyAlongDimensions on '
+        'generated IOAPI files (1/8 of cases; data of the listed variables '
+        'and TSTEP/LAY/ROW/COL lengths only).  Non-trivial: '
         'masked variable reduced over an axis that is neither first nor '
         'last, or a length-changing callable, or a variable lacking the '
         'named dimensions present.  Distinct by sha1 of the case spec.')
@@ -58,7 +60,7 @@ ASSUMPTIONS = ['numpy / numpy.ma reductions with keepdims=True and '
                'numpy assignment does (truncation)',
                'character variables are outside the domain']
 BUDGET = {'quick': dict(examples=3200, max_s=240),
-          'thorough': dict(examples=50000, max_s=3000)}
+          'thorough': dict(examples=50000, max_s=1100)}
 
 REDUCERS = ['mean', 'sum', 'min', 'max', 'std', 'var', 'prod']
 COMMUTING = ('sum', 'min', 'max', 'prod')
@@ -124,7 +126,30 @@ def cases(draw, tier='quick'):
     return dict(file=fs, funcs=fl, form=form)
 
 
+@st.composite
+def ioapi_cases(draw):
+    from .. import ioapispec
+    sp = draw(ioapispec.ioapispecs(routes=('arrays', 'griddesc'),
+                                   ftypes=(1,), max_n=4, max_steps=4,
+                                   max_vars=3))
+    dl = dict(TSTEP=sp['nt'], LAY=sp['nz'], ROW=sp['ny'], COL=sp['nx'])
+    k = draw(st.integers(1, 3))
+    chosen = draw(st.permutations(sorted(dl)))[:k]
+    fl = []
+    for d in chosen:
+        if d == 'TSTEP' or draw(st.booleans()):
+            fl.append([d, ['red', draw(st.sampled_from(REDUCERS))]])
+        else:
+            fl.append([d, draw(funcs(dl[d]).filter(
+                lambda f: f[0] != 'maconv'))])
+    return dict(entry='ioapi', ioapi=sp, funcs=fl, form='plain')
+
+
 def strategy(tier):
+    if tier == 'thorough':
+        return st.one_of(cases(tier), cases(tier), cases(tier), cases(tier),
+                         cases(tier), cases(tier), cases(tier),
+                         ioapi_cases())
     return cases(tier)
 
 
@@ -359,7 +384,50 @@ def check_string_form(case):
     return r
 
 
+def check_ioapi(case):
+    """ioapi_base.applyAlongDimensions: only the data of the listed
+    variables and the lengths of TSTEP/LAY/ROW/COL are judged here (the
+    metadata belong to C10)"""
+    from .. import ioapispec
+    r = Result()
+    sp = case['ioapi']
+    fl = [[d, list(fd)] for d, fd in case['funcs']]
+    fmap = S.OD((d, fd) for d, fd in fl)
+    r.label('entry:ioapi', 'route:' + sp['route'], 'ndims:%d' % len(fl))
+    r.label(*['f:' + (fd[0] if fd[0] != 'red' else 'red:' + fd[1])
+              for d, fd in fl])
+    f = ioapispec.build(sp)
+    kw = S.OD((d, lib_func(fd)) for d, fd in fl)
+    dims = ioapispec.STD_DIMS[1]
+    dl = dict(zip(dims, ioapispec.var_shape(sp)))
+    r.nontrivial = any(fd[0] != 'red' and out_len(fd, dl[d]) != dl[d]
+                       for d, fd in fl) or len(fl) >= 2
+    ok, out = guard(r, 'apply-raises',
+                    lambda: f.applyAlongDimensions(**kw))
+    if not ok:
+        r.failures[-1].klass = 'ioapi'
+        return r
+    for d in dims:
+        want = out_len(fmap[d], dl[d]) if d in fmap else dl[d]
+        if d not in out.dimensions or len(out.dimensions[d]) != want:
+            r.fail('dims', 'ioapi: dimension %s has length %s, expected %d'
+                   % (d, len(out.dimensions[d]) if d in out.dimensions
+                      else None, want), klass='ioapi')
+    if r.failures:
+        return r
+    for name in sp['vars']:
+        if name not in out.variables:
+            r.fail('var-names', 'ioapi: variable %s missing' % name)
+            continue
+        mv = S.MVar(name, dims, ioapispec.data_of(sp, name), S.OD())
+        axes = [(i, d) for i, d in enumerate(dims) if d in fmap]
+        judge_var(r, name, mv, out.variables[name], axes, fmap)
+    return r
+
+
 def check_case(case):
+    if case.get('entry', 'method') == 'ioapi':
+        return check_ioapi(case)
     if case.get('entry', 'method') != 'method':
         return check_string_form(case)
     r = Result()
@@ -527,8 +595,11 @@ def judge_var(r, name, mv, ov, axes, fmap):
                 what, gd.dtype, dtype), klass=klass)
             return
         if not comparable:
+            # a float result outside the integer range has no defined
+            # conversion; the library may have followed this order, so the
+            # variable is not judged at all
             r.label('int-overflow-not-compared')
-            continue
+            return
         ncomp += 1
         msg = S.cmp_array(got, exp, what, **kw)
         if not msg:
